@@ -222,6 +222,20 @@ def r3(ctx):
                  f"`{b.id}` does not register the host with (Sim::elapsed, Sim::since_epoch) read from the fields: its sim / epoch time is offset (e.g. registration time counted twice, or arguments swapped)")
     if ctx.strict and len(shapes) < 2:
         ctx.bad(R, "HostTimer::new-sites", "", f"expected 2 HostTimer::new call sites in Sim (client, host), found {len(shapes)}")
+    sn = ctx.body(R, "turmoil::sim::Sim::new")
+    if sn:
+        ag = [s for bb, i, s in sn.all_stmts() if s["r"]["k"] == "agg" and s["r"].get("adt") == "turmoil::sim::Sim"]
+        ok = False
+        why = "Sim aggregate not found"
+        if ag:
+            m = dict(zip(ag[0]["r"]["fields"], ag[0]["r"]["ops"]))
+            at = Slicer(ctx.w, into_callees=1).atoms(sn, m["since_epoch"])
+            conv = sorted(a for a in at if re.search(r"call:std::time::Duration::(from_|as_|new|mul_|div_|saturating|checked)|call:.*Duration as std::ops::", a))
+            ok = "call:std::time::SystemTime::duration_since" in at and "field:turmoil::config::Config::epoch" in at and not conv
+            why = f"derived through {conv}" if conv else "not config.epoch.duration_since(UNIX_EPOCH)"
+            c0 = op_const(m["elapsed"]) if "elapsed" in m else None
+        ctx.inst(R, "Sim::new:epoch-base", ok, sn.span, "since_epoch base = config.epoch.duration_since(UNIX_EPOCH), unmodified" if ok else
+                 f"Sim::new does not take the epoch base unmodified from the configured epoch ({why}): epoch time != configured epoch + sim time")
     hn = ctx.body(R, H + "new")
     if hn:
         ag = [s for bb, i, s in hn.all_stmts() if s["r"]["k"] == "agg" and s["r"].get("adt") == "turmoil::host::HostTimer"]
@@ -231,7 +245,7 @@ def r3(ctx):
             m = dict(zip(r["fields"], r["ops"]))
             ok = origin(hn, m["start_offset"]).get("arg") == 1 and origin(hn, m["since_epoch"]).get("arg") == 2
         ctx.inst(R, "HostTimer::new:fields", ok, hn.span, "start_offset := arg0, since_epoch := arg1" if ok else "HostTimer::new stores its arguments in the wrong fields")
-    ctx.floor(R, 7)
+    ctx.floor(R, 8)
 
 
 def r4(ctx):
